@@ -59,6 +59,8 @@ class WebGrid:
     def __init__(self, grid=None, extra_cfg="", client_index=0, **gridkw):
         self.g = grid or Grid(**gridkw)
         self.client = make_full_client(self.g, i=client_index, extra_cfg=extra_cfg)
+        # the gateway's own encoding parameters (tahoe.cfg has no public knob for the segment size)
+        self.client.encoding_params = dict(self.client.encoding_params, max_segment_size=self.g.params["max_segment_size"])
         self.ws = QuietWebishServer(self.client, "0", tempfile.TemporaryFile, clock=vr, now_fn=vr.seconds)
         self.ws.setServiceParent(self.client)
         self.root = self.ws.root
